@@ -83,32 +83,6 @@ func vReconstruct(r, dst *Ring, buf Poly, muc ModUpConstants, xs *big.Int, id st
 	return vCRTLift(new(big.Int).Sub(sum, xs), mods, targets, id)
 }
 
-// vStubMultSum is the contract of multSum (engine only; discharged on the real multSum by VerifH_C02_MultSumContract):
-//   res[l] ≡ Σ_i y_l[i]·(qoverqimodp[i]·2^-64) + vtimesqmodp[v[l]]  (mod q),   res[l] < 2^64 (no wrap).
-// The representative returned is the reduced one plus an arbitrary multiple (0..3) of q: consumers may rely on the
-// congruence only (the real function documents [0, 2q-1], which does not hold for its vtimesqmodp term: values up to
-// 3q-2 occur; none of the callers depends on it).
-func vStubMultSum(level int, res, rlo, rhi, v *[8]uint64, y0, y1, y2, y3, y4, y5, y6, y7 *[32]uint64, q, qInv uint64, vtimesqmodp, qoverqimodp []uint64) {
-	ys := [8]*[32]uint64{y0, y1, y2, y3, y4, y5, y6, y7}
-	bred := GenBRedConstant(q)
-	for l := 0; l < 8; l++ {
-		acc := new(big.Int)
-		for i := 0; i <= level; i++ {
-			acc.Add(acc, new(big.Int).Mul(vB(ys[l][i]), vB(IMForm(qoverqimodp[i], q, qInv))))
-		}
-		vi := v[l]
-		vAssert(vi < uint64(len(vtimesqmodp)), "multSum-correction-index-in-range")
-		var corr uint64
-		for k := range vtimesqmodp {
-			corr = vIte64(vi == uint64(k), vtimesqmodp[k], corr)
-		}
-		acc.Add(acc, vB(corr))
-		res[l] = acc.Mod(acc, vB(q)).Uint64()
-	}
-	_ = bred
-	res[0] += (vU64("multsum.k") & 3) * q
-}
-
 func VerifH_C02_MultSumContract() {
 	vConfig("backend", "int")
 	for _, cs := range VerifSetup_BEChains(vTier()) {
